@@ -363,3 +363,18 @@ func (c *Ctx) caseLabel(n ast.Node) string {
 	}
 	return ""
 }
+
+// alsoUnder runs part of another property's rules under the ids of the property being decided:
+// alias maps original rule id -> id here; obligations of other rules, and constructs keep rejects, are dropped.
+func (c *Ctx) alsoUnder(alias map[string]string, keep func(construct string) bool, run func()) {
+	oldA, oldK := c.R.Alias, c.R.Keep
+	c.R.Alias = alias
+	c.R.Keep = func(rule, construct string) bool {
+		if _, ok := alias[rule]; !ok {
+			return false
+		}
+		return construct == "" || keep == nil || keep(construct)
+	}
+	defer func() { c.R.Alias, c.R.Keep = oldA, oldK }()
+	run()
+}
